@@ -126,6 +126,9 @@ package engine
 //@   assigns *, ghost.sprintSteps
 //@   ensures_trusted [no_engine_error] !typeis(result, *Error)
 //@   ensures [never_left_active] isnil(result) ==> (s.status == flows.SessionStatusWaiting || s.status == flows.SessionStatusCompleted || s.status == flows.SessionStatusFailed)
+// C01 (local part of "otherwise no run is active or waiting"): when the loop hands back a session that is not waiting, the run it
+// stopped in has no active parent left to resume (the run itself and ancestors further up: not claimed, see DESIGN 8.2)
+//@   checks [no_active_parent_left] (isnil(result) && s.status != flows.SessionStatusWaiting && !isnil(local(currentRun))) ==> (isnil(local(currentRun).(*runs.run).parent) || !isActive(local(currentRun).(*runs.run).parent))
 // C05: reaching the step limit is never reported as a Go error (it fails the run, and through it the session)
 //@   checks [limit_is_not_an_error] numNewSteps > s.engine.(*engine).options.MaxStepsPerSprint ==> isnil(result)
 //@   ensures [step_limit] ghost.sprintSteps - old(ghost.sprintSteps) <= (old(s.engine.(*engine).options.MaxStepsPerSprint) > 0 ? old(s.engine.(*engine).options.MaxStepsPerSprint) : 0)
